@@ -8,7 +8,6 @@ NA = [
  ("C05", "numeric error bound over all inputs and random tapes of an arithmetic protocol; not visible in code shape"),
  ("C13", "round-trip equalities over all integers/widths/shapes are value-level; the one structural facet (lossy narrowing) is claimed under C10"),
  ("C16", "correctness of a Boolean comparison circuit generator over all widths/operands is value-level"),
- ("C17", "exactness of adder/mux/clip/division circuits over all operands is value-level"),
  ("C18", "ordering/stability of runtime data; no static argument in reach"),
  ("C20", "real-analysis approximation bounds over dense domains"),
 ]
@@ -20,7 +19,7 @@ def claim(pid, cat, text, ref, note, tech):
     CLAIMS[pid] = (cat, text, ref, note, tech)
 
 claim("C08", "proof",
-      "Decides the 'two parameterisations never collide' clause exhaustively: for every impl of CustomOperationBody (all are enumerated from the type-checked program) every field of the operation's derived Eq/Hash identity flows into get_name, the literal name texts of distinct operations differ, and the instantiation caches are keyed by exactly (op, argument types) and the reported name is only used to name the glued graph, never to look one up (C08.G). Meaning-preservation of the instantiated graphs is NOT decided.",
+      "Decides the 'two parameterisations never collide' clause exhaustively: for every impl of CustomOperationBody (all are enumerated from the type-checked program) every field of the operation's derived Eq/Hash identity flows into get_name, the literal name texts of distinct operations differ, and the instantiation caches are keyed by exactly (op, argument types) and the reported name is only used to name the glued graph, never to look one up, and glued graphs do not inherit names of auxiliary graphs (C08.G); every field consumed by instantiate() takes part in equality and hash at every nesting level, so two behaviours never share a cache key (C08.E). Meaning-preservation of the instantiated graphs is NOT decided.",
       "DESIGN.md section 3, C08",
       "Trusted: rustc MIR + impl/ADT tables, the ccfacts dump, the value-flow engine (may-analysis: 'flows into a formatting argument / branch' is taken as 'appears in the name').",
       "custom MIR value-flow lint over all CustomOperationBody impls (rustc_private driver + Python rules)")
@@ -44,7 +43,7 @@ claim("C04", "other",
       "variant-conditioned abstract interpretation + dominance/value-flow rules on MIR (custom rustc_private lint)")
 
 claim("C02", "other",
-      "Decides structural necessary conditions over ALL protocol-building code (mpc/**, optimizer/**), hence for every compiled program: Send annotations are only placed on nop() results (C02.S, 44 sites); every protocol nop() receives a Send (C02.N); elements of a 3-out-of-3 zero sharing never reach a function's result un-sent (C02.Z - reports the known finding in mpc_psi); every Operation variant translated by an interactive protocol has its dependencies reshared by the planner and a marked node enters the mapping only via reshare() (C02.K, per variant by abstract interpretation); the de-duplication key contains annotations and annotated nodes are never folded (C02.O); literal party indices are valid (C02.P). That every value a party uses is derivable by that party (a per-node ownership type) is NOT decided.",
+      "Decides structural necessary conditions over ALL protocol-building code (mpc/**, optimizer/**), hence for every compiled program: Send annotations are only placed on nop() results (C02.S, 44 sites); every protocol nop() receives a Send (C02.N); elements of a 3-out-of-3 zero sharing never reach a function's result un-sent (C02.Z - reports the known finding in mpc_psi); every Operation variant translated by an interactive protocol has its dependencies reshared by the planner and a marked node enters the mapping only via reshare() (C02.K, per variant by abstract interpretation); the de-duplication key contains annotations, annotated nodes are never folded and the meta-operation pass never lets getters see through an annotated NOP (C02.O); literal party indices are valid (C02.P). That every value a party uses is derivable by that party (a per-node ownership type) is NOT decided.",
       "DESIGN.md section 3, C02",
       "Trusted: the may-value-flow engine (imprecision can only add producers, i.e. cause a report), the exceptions table for un-sent NOPs (1 entry), the list of interactive helpers, MIR construction.",
       "builder value-flow (producer sets, taint) + variant-conditioned abstract interpretation over MIR (custom rustc_private lint)")
@@ -55,12 +54,12 @@ claim("C19", "other",
       "builder value-flow (producer sets, taint) over MIR (custom rustc_private lint)")
 
 claim("C06", "other",
-      "Decides the interface/bookkeeping half of the property on the code of the four passes, optimize_context and uniquify_prf_id, i.e. for every graph they are ever given: every re-created node gets the source node's annotations and name on every path to the mapping (C06.A); nodes are visited in get_nodes() order and Input nodes are never skipped (C06.I, per variant by abstract interpretation); the recorded type is get_type() of the very node whose operation is copied and only the tabled modules may skip inference (C06.T); each pass marks the mapped output and the four mappings are chained in data-dependence order (C06.O); A2B/B2A cancellation is guarded by scalar-type equality (C06.B); the de-duplication key keeps operand order except for commutative operations (C06.K); the dangling pass drops only unneeded non-inputs (C06.X). That the optimised graph computes the same function is NOT decided.",
+      "Decides the interface/bookkeeping half of the property on the code of the four passes, optimize_context and uniquify_prf_id, i.e. for every graph they are ever given: every re-created node gets the source node's annotations and name on every path to the mapping (C06.A); nodes are visited in get_nodes() order and Input nodes are never skipped (C06.I, per variant by abstract interpretation); the recorded type is get_type() of the very node whose operation is copied and only the tabled modules may skip inference (C06.T); each pass marks the mapped output and the four mappings are chained in data-dependence order (C06.O); A2B/B2A cancellation is guarded by scalar-type equality (C06.B); the de-duplication key keeps operand order except for commutative operations (C06.K); the dangling pass drops only unneeded non-inputs (C06.X); an operation whose evaluation draws from the PRNG is classified as randomizing and is neither folded nor merged (C06.R/F/D, shared with C04). That the optimised graph computes the same function is NOT decided.",
       "DESIGN.md section 3, C06",
       "Trusted: may-value-flow (a wrong extra producer can only cause a report), abstract interpreter, MIR construction; the table of modules allowed to call add_node_with_type.",
       "must-pass-through + value-flow provenance + variant-conditioned abstract interpretation on MIR (custom rustc_private lint)")
 claim("C09", "other",
-      "Decides 'an operation whose arguments do not fit is rejected, not crashed' for the partial accessors of Type (derived: get_scalar_type/get_shape/get_dimensions) at all call sites of the type-inference slice: assuming any inadmissible variant for the receiver value, guards on the same value make the call unreachable, or every producer of the value is an admissible constructor / validated container element / struct field with an invariant / guarded argument (C09.K); constant dependency indices of all dispatchers stay within the arity table for every Operation variant (C09.A); every other panic construct of the slice is explained by a derived partial function whose call sites exclude the bad variants, a checked map lookup or a tabled reason (C09.U); indices derived from operation parameters are range-checked (C09.X); no guard compares an expression with itself (C09.S); evaluator arms that can only panic are diverted by evaluate_graph (C09.E); nodes are only created in add_node_internal and add_node infers the type (C09.F). That each computed value has the inferred shape, and panic-freedom of general index arithmetic, are NOT decided.",
+      "Decides 'an operation whose arguments do not fit is rejected, not crashed' for the partial accessors of Type (derived: get_scalar_type/get_shape/get_dimensions) at all call sites of the type-inference slice: assuming any inadmissible variant for the receiver value, guards on the same value make the call unreachable, or every producer of the value is an admissible constructor / validated container element / struct field with an invariant / guarded argument (C09.K); constant dependency indices of all dispatchers stay within the arity table for every Operation variant (C09.A); every other panic construct of the slice is explained by a derived partial function whose call sites exclude the bad variants, a checked map lookup or a tabled reason (C09.U); indices derived from operation parameters are range-checked (C09.X); no guard compares an expression with itself (C09.S); evaluator arms that can only panic are diverted by evaluate_graph (C09.E); nodes are only created in add_node_internal and add_node infers the type (C09.F); evaluate_graph never frees the value of the output node (C09.O). That each computed value has the inferred shape, and panic-freedom of general index arithmetic, are NOT decided.",
       "DESIGN.md section 3, C09",
       "Trusted: abstract interpreter over Type/Operation variant tags (unknown calls are TOP), value-flow engine, the recognition of table-level validation loops, MIR construction.",
       "guard analysis by variant-conditioned abstract interpretation of MIR + provenance rules (custom rustc_private lint)")
@@ -83,7 +82,7 @@ claim("C15", "other",
       "effect analysis over the resolved call graph + field-write and provenance rules on MIR (custom rustc_private lint)")
 
 claim("C03", "other",
-      "Decides two necessary conditions named in the property's mechanisms, for every compiled program because they are decided on the compiler's code: outputs go only to listed parties - in reveal_output no Send is reachable with an empty party list, the first receiver derives from output_parties, every further Send is guarded by output_parties.contains(Party(x)) for the x that becomes the receiver (C03.R); in the masking protocols the property names (resharing, oblivious transfer, both truncations, input sharing) every message has a PRF/random/zero-share term in its additive closure (C03.M; payloads of all other Send sites are classified in the evidence for information only). The distributional statement itself (views are identically distributed) is NOT decided, nor that the mask is unknown to the receiver.",
+      "Decides two necessary conditions named in the property's mechanisms, for every compiled program because they are decided on the compiler's code: outputs go only to listed parties - in reveal_output no Send is reachable with an empty party list, the first receiver derives from output_parties, every further Send is guarded by output_parties.contains(Party(x)) for the x that becomes the receiver (C03.R); in the masking protocols the property names (resharing, oblivious transfer, both truncations, input sharing) every message has a PRF/random/zero-share term in its additive closure (C03.M; payloads of all other Send sites are classified in the evidence for information only); where every pseudo-random term of a message can be resolved to a key-triple component or a zero-share index, at least one is not computable by the receiver (C03.H, 3 sites); the resharing planner and sanity_pass agree on the set of product operations, so no private product leaves a party un-re-randomised (C03.K, shared with C02.K). The distributional statement itself (views are identically distributed) is NOT decided.",
       "DESIGN.md section 3, C03",
       "Trusted: value-flow engine with an additive closure (add/subtract/sum/nop), closure-result summarisation, the list of masking protocols taken from the property's mechanism list.",
       "guard reachability by abstract interpretation + additive-closure provenance on MIR (custom rustc_private lint)")
@@ -92,6 +91,12 @@ claim("C07", "other",
       "DESIGN.md section 3, C07",
       "Trusted: MIR CFG, recognition of error exits, abstract interpreter for the assumed membership-test outcomes.",
       "typestate (pairing/ordering) rule on MIR CFGs (custom rustc_private lint)")
+
+claim("C17", "other",
+      "Decides ONE of the four clauses, for every input: 'the multiplexer returns its second operand where the selector bit is 1 and its third where it is 0'. The builder Mux::instantiate is interpreted over an affine abstract domain (for each selector value, the output node as a linear form of the two choices; coefficients mod 2 for bit operands), separately for the bit-typed and the arithmetic branch; the form must be exactly arg1 for selector=1 and arg2 for selector=0 (C17.M). The domain is exact for this builder, so the verdict holds for all operand values, widths and broadcast shapes. The adder, clip and long-division clauses are NOT decided (value-level circuit correctness).",
+      "DESIGN.md section 3, C17",
+      "Trusted: the algebra of Add/Subtract/Multiply/MixedMultiply/ones on bit and integer arrays (elementwise, modular), the order of Graph::input calls as argument order, value-flow engine; operations outside the domain make a branch unjudged (reported in the evidence), never a verdict.",
+      "affine abstract interpretation of a graph builder over its MIR producer graph (custom rustc_private lint)")
 
 ALL = ["C%02d" % i for i in range(1, 21)]
 
